@@ -238,6 +238,8 @@ func (ms *Modules) FindModuleByNamespace(ns string) (*Module, error) {
 	// Protect the byNS map from concurrent accesses
 	ms.nsMu.Lock()
 	defer ms.nsMu.Unlock()
+	verifHook("ns.enter", ms)
+	defer verifHook("ns.exit", ms)
 
 	if m, ok := ms.byNS[ns]; ok {
 		return m, nil
@@ -467,12 +469,16 @@ func (ms *Modules) include(m *Module) error {
 func (ms *Modules) getEntryCache(n Node) *Entry {
 	ms.entryCacheMu.RLock()
 	defer ms.entryCacheMu.RUnlock()
+	verifHook("ec.renter", ms)
+	defer verifHook("ec.rexit", ms)
 	return ms.entryCache[n]
 }
 
 func (ms *Modules) setEntryCache(n Node, e *Entry) {
 	ms.entryCacheMu.Lock()
 	defer ms.entryCacheMu.Unlock()
+	verifHook("ec.wenter", ms)
+	defer verifHook("ec.wexit", ms)
 	ms.entryCache[n] = e
 }
 
@@ -481,5 +487,7 @@ func (ms *Modules) setEntryCache(n Node, e *Entry) {
 func (ms *Modules) ClearEntryCache() {
 	ms.entryCacheMu.Lock()
 	defer ms.entryCacheMu.Unlock()
+	verifHook("ec.wenter", ms)
+	defer verifHook("ec.wexit", ms)
 	ms.entryCache = map[Node]*Entry{}
 }
